@@ -40,6 +40,9 @@ func checkC09(c *Ctx, r *Report) {
 	}
 	ruleG3(c, r, qs, 0)
 	ruleChunkEntryWalk(c, r)
+	if n := ruleStrictUpper(c, r, "G7", func(f *ssa.Function) bool { return strings.HasPrefix(SSAFuncName(f), "mp4.") }); n < 4 {
+		r.Undecided("G7", "scope", "", "upper-bound tests against the sample count not found")
+	}
 	ruleStssPresence(c, r)
 	ruleIndependentEnds(c, r, "O-INDEP", func(f *ssa.Function) bool { return strings.HasPrefix(SSAFuncName(f), "mp4.") }, 1)
 	ruleG3Lin(c, r, qs)
@@ -54,6 +57,11 @@ func checkC10(c *Ctx, r *Report) {
 	ruleNarrowMul(c, r, "W-NARROW", sampleTableScope)
 	ruleCropCases(c, r)
 	ruleCropCounts(c, r)
+	if n := ruleStrictUpper(c, r, "G7", func(f *ssa.Function) bool {
+		return strings.HasPrefix(SSAFuncName(f), "mp4.") || strings.HasPrefix(SSAFuncName(f), "cmd/mp4ff-crop.")
+	}); n < 4 {
+		r.Undecided("G7", "scope", "", "upper-bound tests against the sample count not found")
+	}
 	ruleNoMdatHeaderConstant(c, r, "W-MDATHDR")
 	requireFixture(r, "W-MDATHDR", "payloadStartWrong", func(fc *Ctx, s *Report) { ruleNoMdatHeaderConstant(fc, s, "W-MDATHDR") })
 	requireFixture(r, "W-NARROW", "TfrfData.size", func(fc *Ctx, s *Report) { ruleNarrowMul(fc, s, "W-NARROW", nil) })
